@@ -67,6 +67,7 @@ def check_value(res: Result, sc, compiler, cc, X, semiring: str, tag: str, tol="
     ok, idx, msg = compare_semiring(got, r, a, semiring, tol)
     res.count("values_compared", int(np.prod(got.shape)))
     if not ok:
+        msg = _classify_complex_nan(cc, X, got, r, a, semiring, tol, msg)
         res.violate("value-mismatch", f"[{tag}] B={None if X is None else X.shape[0]} at (b,o,k)={idx}: {msg}")
         return False
     return True
@@ -86,6 +87,56 @@ def monotone_ok(sc, compiler) -> bool:
     return True
 
 
+def nan_born_from_exact_zero(cc_, X) -> bool:
+    """Runtime witness for the known complex-lse-sum defect: re-run the compiled circuit with forward
+    hooks on its layers and find the first layer whose output holds NaN while none of its tensor
+    inputs does.  True iff that layer is an inner layer whose inputs contain an exactly-zero unit
+    (real part -inf): torch's complex addition turns (-inf+aj) + z into -inf+nanj in vectorised lanes,
+    and the NaN then spreads to every output that depends on it."""
+    import torch
+
+    def has_nan(t):
+        return bool(torch.isnan(torch.view_as_real(t) if t.is_complex() else t).any())
+
+    first = []
+
+    def hook(mod, args, out):
+        if first or not isinstance(out, torch.Tensor) or not has_nan(out):
+            return
+        ins = [a_ for a_ in args if isinstance(a_, torch.Tensor) and (a_.is_complex() or a_.is_floating_point())]
+        if any(has_nan(a_) for a_ in ins):
+            return
+        first.append(any(a_.is_complex() and bool(torch.isneginf(a_.real).any()) for a_ in ins))
+
+    handles = [l.register_forward_hook(hook) for l in cc_.layers]
+    try:
+        call(evaluate, cc_, X)
+    finally:
+        for h_ in handles:
+            h_.remove()
+    return bool(first and first[0])
+
+
+def _nan_only_mismatch(got, expected, scale, tol) -> bool:
+    """Every entry that fails the linear-space comparison is NaN in the output."""
+    from vf.common import TOL, to_linear
+
+    lin = to_linear(got, "complex-lse-sum")
+    ref_ = np.asarray(expected)
+    t = TOL[tol]
+    with np.errstate(invalid="ignore"):
+        bad = ~(np.abs(lin - ref_) <= t["rel"] * np.maximum(np.abs(np.asarray(scale)), np.abs(ref_)) + t["abs"])
+    return bool(bad.any() and np.all(np.isnan(lin[bad])))
+
+
+def _classify_complex_nan(cc_, X, got, expected, scale, semiring, tol, msg) -> str:
+    from vf.common import NAN_AT_ZERO
+
+    if semiring == "complex-lse-sum" and NAN_AT_ZERO not in msg and _nan_only_mismatch(got, expected, scale, tol) and nan_born_from_exact_zero(cc_, X):
+        return f"{NAN_AT_ZERO} (complex-lse-sum; NaN first produced by a layer with an exactly-zero input unit): " + msg
+    return msg
+
+
 def check_expected(res: Result, cc_, X, expected, scale, semiring: str, tag: str, tol="exact", vclass="value-mismatch", **extra) -> bool:
     """Evaluate a compiled circuit and compare with an expected linear-space array."""
     out = call(evaluate, cc_, X)
@@ -99,6 +150,7 @@ def check_expected(res: Result, cc_, X, expected, scale, semiring: str, tag: str
     ok, idx, msg = compare_semiring(got, expected, scale, semiring, tol)
     res.count("values_compared", int(np.prod(got.shape)))
     if not ok:
+        msg = _classify_complex_nan(cc_, X, got, expected, scale, semiring, tol, msg)
         res.violate(vclass, f"[{tag}] at {idx}: {msg}", **extra)
         return False
     return True
